@@ -49,7 +49,7 @@ add("C09", "TestC09",
           "Non-trivial: >= 2 results before the terminal one and a schedule with a forced cut inside one of those byte pairs; distinct by "
           "SHA-256 of the serialised case."),
     quick={"checks": 1500, "shards": 4, "timeout": 600},
-    thorough={"checks": 20000, "shards": 16, "timeout": 3000},
+    thorough={"checks": 20000, "shards": 16, "timeout": 3000, "fuzz": [{"target": "FuzzC09", "time": 180}]},
     floors={"cut=rune": 0.10, "cut=crlf": 0.10, "cut=escape": 0.10, "cut=bom": 0.10, "malformed": 0.10, "zero-reads": 0.2},
     assumptions=["runs of (0,nil) reads are capped at 3 (bufio legitimately gives up with ErrNoProgress after 100)",
                  "for the json format the digits after 'line ' in error texts are masked (documented as a rough number that depends on decoder pre-fetch)"])
@@ -250,7 +250,7 @@ add("C03", "TestC03", note_current=True,
           "must reach a terminal result within 2n+64 Reads. Non-trivial: NewSchema accepted a mutated schema, or the input is not the "
           "matching one and at least one Read ran; distinct by SHA-256 of the case."),
     quick={"checks": 5000, "shards": 8, "timeout": 900},
-    thorough={"checks": 60000, "shards": 16, "timeout": 3300},
+    thorough={"checks": 60000, "shards": 16, "timeout": 3300, "fuzz": [{"target": "FuzzC03", "time": 240}]},
     floors={"accepted-mutant": 0.12, "malformed-input": 0.25, "base=sample": 0.3, "base=shape": 0.3},
     assumptions=["scripts that loop are outside the claim: only the samples' scripts and the harness' terminating scripts occur; mutations "
                  "never synthesise script text", "this never establishes the absence of crashing inputs"])
@@ -348,7 +348,7 @@ add("C07", "TestC07",
           "for a missing element. Non-trivial: some value contains an escaped rune, or a segment exceeds 128 bytes, or a multi-rune "
           "delimiter is in use; distinct by SHA-256 of the case."),
     quick={"checks": 3000, "shards": 4, "timeout": 900},
-    thorough={"checks": 25000, "shards": 16, "timeout": 3300},
+    thorough={"checks": 25000, "shards": 16, "timeout": 3300, "fuzz": [{"target": "FuzzC07", "time": 180}]},
     floors={"escaped": 0.40, "segment>128": 0.30, "multi-rune-delimiter": 0.25, "segment>4096": 0.02, "two-declarations-same-element": 0.08,
             "ignore-crlf": 0.10, "newline-delimiter": 0.10, "stray-cr": 0.03, "crlf-only-token": 0.04, "no-release-char": 0.08,
             "outcome=fatal": 0.08, "__nontrivial__": 0.60},
